@@ -30,7 +30,7 @@
      harness evaluates on every generated case (a regression is a VIOLATION
      `exclude_prefix_prunes_sibling` with the concrete input).
    * N4 (hidden input path skipped) was fixed in the code (b49314c): the hidden test applies at level > 0. *)
-From FV Require Import Base WalkModel WalkProofs WalkProofs2 WalkProofs3 WalkProofs4.
+From FV Require Import Base WalkModel WalkProofs WalkProofs2 WalkProofs3 WalkProofs4 WalkProofs5.
 Open Scope N_scope.
 
 (* Whatever is reported was selected — all configurations, all schedulers. *)
@@ -168,3 +168,43 @@ Example C09_exact_exclude_inhabited :
   (forall p, xsel_file p = true -> xexcl p = false) /\
   scan xsel_file xsel_dir no_ign wtree wcfg3 sched_lifo [[]] = Done [[nD; nF]].
 Proof. exact ex_exclude. Qed.
+
+(* With --follow-links the walk itself delivers every path at most once, for every tree (cycles, several links to one
+   directory, overlapping input paths), configuration and SCHEDULER: the visited set is looked up and updated in one atomic
+   step and a path is sent only in the step that records it.  (The walk-level half of "no path listed twice" - C03 - and of
+   "the body does not depend on the interleaving of the walker threads" - C13 - for link-following scans; splitting the
+   look-up from the insert, or dropping group.rs deduplicate for "single root" scans, breaks exactly this.) *)
+Theorem C09_follow_delivers_once :
+  forall sel_file sel_dir ign1 t c sched roots l,
+    c_follow c = true ->
+    walk sel_file sel_dir ign1 t c sched roots = Done l -> NoDup l.
+Proof. exact stmt_follow_walk_nodup. Qed.
+Print Assumptions C09_follow_delivers_once.
+
+(* ... so with --follow-links group.rs deduplicate has nothing to remove: the scan result is the size-filtered walk output *)
+Theorem C09_follow_scan_is_walk :
+  forall sel_file sel_dir ign1 t c sched roots found,
+    c_follow c = true ->
+    walk sel_file sel_dir ign1 t c sched roots = Done found ->
+    scan sel_file sel_dir ign1 t c sched roots = Done (filter (size_ok t c) found).
+Proof. exact stmt_follow_scan_is_walk. Qed.
+Print Assumptions C09_follow_scan_is_walk.
+
+(* An input path that cannot be stat-ed (vanished, dangling link) is left out alone: walk and scan are those of the remaining
+   input paths, wherever it stands in the list (the walk-level half of C15 for input paths; `return` instead of `continue`
+   after the failing path breaks exactly this). *)
+Theorem C09_missing_input_path_ignored :
+  forall sel_file sel_dir ign1 t c sched r1 bad r2,
+    stat t (absolute t bad) = None ->
+    walk sel_file sel_dir ign1 t c sched (r1 ++ bad :: r2) = walk sel_file sel_dir ign1 t c sched (r1 ++ r2) /\
+    scan sel_file sel_dir ign1 t c sched (r1 ++ bad :: r2) = scan sel_file sel_dir ign1 t c sched (r1 ++ r2).
+Proof. exact stmt_missing_root_ignored. Qed.
+Print Assumptions C09_missing_input_path_ignored.
+
+(* Non-vacuity: /d/f reachable directly and through two links is delivered once under three schedules *)
+Example C09_follow_delivers_once_inhabited :
+  c_follow w5cfg = true /\
+  walk w5all w5all w5ign w5tree w5cfg sched_lifo [[]] = Done [[w5D; w5F]] /\
+  walk w5all w5all w5ign w5tree w5cfg sched_fifo [[]] = Done [[w5D; w5F]] /\
+  walk w5all w5all w5ign w5tree w5cfg (sched_rand 7) [[]] = Done [[w5D; w5F]].
+Proof. exact ex_follow_two_links. Qed.
